@@ -468,6 +468,38 @@ func C17(c *core.Ctx) {
 				}
 			}
 			c.Floor("R4", k, 1, "stores to PERIOGroup.stopCh")
+			// ... and the one who stops a ticker really waits: every function that closes the stop channel has first
+			// sent on it (a blocking send, not an arm of a select), so when it returns the ticker goroutine is past
+			// its last send into the event channel that Serve is about to close
+			nClose := 0
+			for _, fn := range p.OwnFuncs() {
+				core.Instrs(fn, func(in ssa.Instruction) {
+					cl, ok := in.(*ssa.Call)
+					if !ok {
+						return
+					}
+					bi, ok := cl.Call.Value.(*ssa.Builtin)
+					if !ok || bi.Name() != "close" {
+						return
+					}
+					_, f, ok := core.LoadedField(cl.Call.Args[0])
+					if !ok || f != stopF {
+						return
+					}
+					nClose++
+					waited := false
+					core.Instrs(fn, func(in2 ssa.Instruction) {
+						if sd, ok := in2.(*ssa.Send); ok {
+							if _, f2, ok := core.LoadedField(sd.Chan); ok && f2 == stopF && core.InstrDominates(sd, cl) {
+								waited = true
+							}
+						}
+					})
+					c.Check("R4", "ticker-stop-waits:"+core.FnName(fn), cl.Pos(), waited,
+						"the stop channel is closed only after a blocking send on it: the ticker goroutine has taken the signal (it is not between its tick and its send into the event channel) when the stopper returns")
+				})
+			}
+			c.Floor("R4", nClose, 1, "close(PERIOGroup.stopCh) sites")
 		}
 		timerArmers(c, "R4", a)
 		// a timer callback posts an event of its own transaction type for its own id: an RX timer posting TX is
@@ -691,6 +723,8 @@ func C18(c *core.Ctx) {
 		return o.Rule == "R8" && (strings.Contains(o.Key, "/R8/add-caller") || strings.Contains(o.Key, "/R8/del-caller") || strings.Contains(o.Key, "/R8/lossless-post"))
 	}, 3, "periodic registration call sites")
 	netlinkClientOwnership(c, "R3")
+	// the event loop's own drain loops end: Pop answers false for an empty queue (C13 R1)
+	popVerdict(c, "R2")
 }
 
 // netlinkClientOwnership: the periodic server's queries run on their own netlink connection. A reply
